@@ -53,6 +53,7 @@ type EngScenario struct {
 	ROrder   []int      `json:"rorder"`   // the runner nodes in candidate iteration order (computed here from order)
 	All      bool       `json:"all"`      // finally look every pool component up through Factory.GetComponents(InterfaceType(Nd))
 	RawOrder bool       `json:"rawOrder"` // do not wrap the definition registry: candidates come in the real registry's own order
+	Unfit    bool       `json:"unfit"`    // substituted components may be wired through pointer-typed points too (the substitute does not fit such a field)
 	Once     []bool     `json:"once"`     // per node: its fault is transient - it fires only while nothing has failed yet in this container
 	Prewire  [][]int    `json:"prewire"`  // per node: single-valued targets whose field the user filled by hand (raw object) before the start
 	Late     []bool     `json:"late"`     // per node: its slice point is served by a user-written collector that runs after further matching (custom tag, optional)
@@ -604,7 +605,7 @@ func chooseKinds(sc *EngScenario, rnd *rand.Rand) {
 		ks := make([]string, len(sc.Single[h-1]))
 		for i, t := range sc.Single[h-1] {
 			opts := []string{"name-iface"}
-			if t <= poolK && sc.Wrap[t-1] == "none" && h <= poolK && !contains(sc.Runners, t) && !contains(sc.Runners, h) {
+			if t <= poolK && (sc.Wrap[t-1] == "none" || sc.Unfit) && h <= poolK && !contains(sc.Runners, t) && !contains(sc.Runners, h) {
 				opts = append(opts, "name-ptr", "type-ptr")
 			}
 			ks[i] = opts[rnd.Intn(len(opts))]
